@@ -147,6 +147,7 @@ RULE_CLAUSES = {
     'GENPRE': 'a choice-function generator is constructed only over components tested non-empty on every path (GENPRE)',
     'NULLPARAM': 'an optional pointer parameter is dereferenced only after a non-null test or after it was given a local default on every null path (NULLPARAM)',
     'TENTATIVE': 'no effect is made under a tentatively inserted map entry while it can still be erased (TENTATIVE)',
+    'PREPASS': 'a translator counter is read as a value only in loops preceded by a pass that registers the same values (PREPASS)',
     'SIBLING': 'sibling functors hold and initialise the same caches and agree on the shape of their shared calls (SIBLING)',
     'FORWARD': 'facade methods forward every argument, in order, to the same-named core method (FORWARD)',
     'TUPLEPOS': 'position-wise tuple handling never reorders, deduplicates or drops positions (TUPLEPOS)',
